@@ -395,7 +395,7 @@ Result<WorkResult, WorkError>
             }
             else
             {
-                let file_state_vec = match info.blob.get_current_file_state_vec(&info.system)
+                let file_state_vec = match info.blob.get_file_state_vec_after_resolution(&info.system, &resolutions)
                 {
                     Ok(file_state_vec) => file_state_vec,
                     Err(GetFileStateError::FileNotFound(path)) => return Err(WorkError::FileNotFound(path)),
